@@ -65,6 +65,9 @@ class TermEncoder:
                 indices in prefix and name tables.
 
         """
+        # lookup keys must be plain str: str subclasses such as rdflib.URIRef
+        # override __eq__ and would not match the split parts of other IRIs
+        iri_string = str(iri_string)
         prefix, name = split_iri(iri_string)
         if self.prefixes.lookup.max_size:
             prefix_entry_index = self.prefixes.encode_entry_index(prefix)
